@@ -25,7 +25,12 @@ Record caseN := { n_op : opk; n_shape : list nat; n_m : meth; n_p : pmode; n_c :
                   n_linear : bool; n_y : list (list Q); n_adj : list (list Q) }.
 
 Definition hd0 (l : list (list Q)) : list Q := match l with a :: _ => a | [] => [] end.
+(* diff_ops.py: every operator is flagged linear unless pad_mode == 'constant' and pad_const != 0
+   (a pad constant given together with another mode is ignored) *)
+Definition linear_flag (p : pmode) (c : Q) : bool :=
+  match p with PConstant => Qeq_bool c 0 | _ => true end.
 Definition checkN (k : caseN) : bool :=
+  Bool.eqb (n_linear k) (linear_flag (n_p k) (n_c k)) &&
   let sh := n_shape k in let m := n_m k in let p := n_p k in let c := n_c k in let dxs := n_dxs k in
   match n_op k with
   | OpPD ax =>
